@@ -246,6 +246,7 @@ type explorer struct {
 	atoms     []atom
 	atomIdx   map[string]int
 	freshN    int
+	addrN     int // addresses printed so far on this path (every printed address is distinct)
 	steps     int64
 	depth     int
 	reached   []string
